@@ -444,3 +444,115 @@ Proof.
       split; [cbn [d_expr]; rewrite Hdx, Hdy; reflexivity|].
       split; [cbn [r_expr]; rewrite Hrx, Hry; cbn; rewrite Tx, Ty; reflexivity|]. cbn. eauto.
 Qed.
+
+(* ---------------------------------------------------------------- predicate filtering *)
+Lemma filter_pred_agrees m p size : pred_ok m p = true ->
+  forall cs pos, (forall c, In c cs -> hazard m p c = false) ->
+  exists l, filter_pred m p size pos cs = Ok l /\ r_filter m p size pos cs = Some l /\ incl l cs.
+Proof.
+  unfold pred_ok. destruct (ty_of p) as [tt|] eqn:Hty; [|discriminate]. destruct tt; try discriminate. intro Hb.
+  induction cs as [|c cs IH]; intros pos Hh; cbn.
+  - exists []. repeat split. apply incl_nil_l.
+  - destruct (expr_agrees m p TBool c pos size Hty (Hh c (or_introl eq_refl)) Hb) as (v & rv & Hd & Hr & b & -> & ->).
+    destruct (IH (pos + 1)%N (fun c' H => Hh c' (or_intror H))) as (l & Hl & Hrl & Hi).
+    rewrite Hd, Hr, Hl, Hrl. cbn. destruct b; eexists; repeat split.
+    + apply incl_cons; [left; reflexivity|]. apply incl_tl. exact Hi.
+    + apply incl_tl. exact Hi.
+Qed.
+
+Lemma apply_preds_agrees m ps : forallb (pred_ok m) ps = true ->
+  forall cs, (forall c, In c cs -> forallb (fun p => negb (hazard m p c)) ps = true) ->
+  exists l, apply_preds m ps cs = Ok l /\ r_preds m ps cs = Some l.
+Proof.
+  induction ps as [|p ps IH]; cbn; intros Hok cs Hh; [eauto|].
+  apply andb_prop in Hok as [Hp Hps].
+  destruct (filter_pred_agrees m p (N.of_nat (length cs)) Hp cs 1%N) as (l & Hl & Hrl & Hi).
+  { intros c Hc. specialize (Hh c Hc). apply andb_prop in Hh as [H _]. apply negb_true_iff in H. exact H. }
+  rewrite Hl, Hrl. cbn. apply IH; [exact Hps|].
+  intros c Hc. specialize (Hh c (Hi c Hc)). apply andb_prop in Hh as [_ H]. exact H.
+Qed.
+
+(* ---------------------------------------------------------------- one step on one context node *)
+Lemma step1_agrees D m s rs n :
+  step_ok D m s n = true -> x_step true m s = Some rs ->
+  exists l, d_step1 D m s n = Ok l /\ r_step1 D m rs n = Some l.
+Proof.
+  destruct s as [a t ps]. unfold step_ok, x_step. destruct (x_axis true a) as [a'|] eqn:Ha; [|discriminate].
+  destruct (x_test true m t) as [t'|] eqn:Ht; [|discriminate]. intros Hok Hrs. inversion Hrs; subst; clear Hrs.
+  apply andb_prop in Hok as [Hok Hhz]. apply andb_prop in Hok as [Hok Hpo]. apply andb_prop in Hok as [Hdn Hdc].
+  assert (Hax : d_axis D a n = (r_axis D a' n, None)).
+  { apply axis_agrees; [exact Ha|]. apply orb_prop in Hdn as [H|H]; [left; apply negb_true_iff; exact H|right; exact H]. }
+  unfold d_step1, r_step1. rewrite Hax.
+  rewrite (filter_test_agrees m t t').
+  2:{ intros c Hc. apply test_agrees; [exact Ht|]. apply negb_true_iff in Hdc.
+      destruct (doc_passes_wrongly t); [|apply andb_false_r]. rewrite andb_true_r in Hdc |- *.
+      destruct (is_doc c) eqn:Hd; [|reflexivity]. rewrite <- Hdc. symmetry. apply existsb_exists. eauto. }
+  cbn [bind]. apply apply_preds_agrees; [exact Hpo|]. rewrite forallb_forall in Hhz. exact Hhz.
+Qed.
+
+(* ---------------------------------------------------------------- a step over a node-set; paths; unions *)
+Lemma collect_agrees D m s rs ns :
+  (forall n, In n ns -> exists l, d_step1 D m s n = Ok l /\ r_step1 D m rs n = Some l) ->
+  exists c, collect D m s ns = (c, None) /\ r_union_map (r_step1 D m rs) ns = Some c.
+Proof.
+  induction ns as [|n ns IH]; cbn; intro H; [eauto|].
+  destruct (H n (or_introl eq_refl)) as (l & Hd & Hr). destruct (IH (fun n' Hn => H n' (or_intror Hn))) as (c & Hc & Hu).
+  rewrite Hd, Hr, Hc, Hu. eauto.
+Qed.
+
+Lemma steps_agree D m ss : forall ns, steps_ok D m ss ns = true ->
+  exists rss out, all_some (map (x_step true m) ss) = Some rss /\
+    fold_left (fun acc s => d_step D m s acc) ss (ns, None) = (out, None) /\
+    fold_left (fun acc s => r_step D m s acc) rss (Some ns) = Some out.
+Proof.
+  induction ss as [|s ss IH]; cbn; intros ns Hok; [exists [], ns; auto|].
+  apply andb_prop in Hok as [Hall Hrest]. destruct (x_step true m s) as [rs|] eqn:Hx; [|discriminate].
+  destruct (collect_agrees D m s rs ns) as (c & Hc & Hu).
+  { intros n Hn. rewrite forallb_forall in Hall. apply step1_agrees; auto. }
+  rewrite Hu in Hrest. cbn in Hrest.
+  destruct (IH (dedup c) Hrest) as (rss & out & Hrss & Hd & Hr).
+  assert (E1 : d_step D m s (ns, None) = (dedup c, None)) by (unfold d_step; cbn [fst snd]; rewrite Hc; reflexivity).
+  assert (E2 : r_step D m rs (Some ns) = Some (dedup c)) by (unfold r_step; rewrite Hu; reflexivity).
+  exists (rs :: rss), out. rewrite Hrss. split; [reflexivity|].
+  cbn [fold_left]. rewrite E1, E2. auto.
+Qed.
+
+Lemma path_agrees D m p ctx : path_ok D m p ctx = true ->
+  exists rp out, x_path true m p = Some rp /\ d_path D m p ctx = (out, None) /\ r_path D m rp ctx = Some out.
+Proof.
+  destruct p as [ab ss]. cbn. intro Hok. destruct (steps_agree D m ss _ Hok) as (rss & out & Hrss & Hd & Hr).
+  exists (RPath ab rss), out. rewrite Hrss. cbn. auto.
+Qed.
+
+Lemma paths_agree D m e ctx : forallb (fun p => path_ok D m p ctx) e = true ->
+  exists re out, xlate true m e = Some re /\ d_paths D m e ctx = (out, None) /\ r_paths D m re ctx = Some out.
+Proof.
+  unfold xlate. induction e as [|p e IH]; cbn; intro H; [exists [], []; auto|].
+  apply andb_prop in H as [Hp He]. destruct (path_agrees D m p ctx Hp) as (rp & o1 & Hx & Hd & Hr).
+  destruct (IH He) as (re & o2 & Hxe & Hde & Hre).
+  exists (rp :: re), (o1 ++ o2). rewrite Hx, Hxe, Hd, Hde. cbn. rewrite Hr, Hre. auto.
+Qed.
+
+Lemma is_doc_dedup l : existsb is_doc (dedup l) = existsb is_doc l.
+Proof.
+  destruct (existsb is_doc l) eqn:E.
+  - apply existsb_exists in E as (x & Hx & Hd). apply dedup_complete_fst in Hx.
+    apply in_map_iff in Hx as (y & Hy & Hin). apply existsb_exists. exists y. split; [exact Hin|].
+    unfold is_doc in *. rewrite Hy. exact Hd.
+  - destruct (existsb is_doc (dedup l)) eqn:E'; [|reflexivity].
+    apply existsb_exists in E' as (x & Hx & Hd). apply dedup_subset in Hx.
+    assert (existsb is_doc l = true) by (apply existsb_exists; eauto). congruence.
+Qed.
+
+(* The main statement: on in_subset the evaluator returns without a fault exactly the node list the reference
+   semantics assigns to the deviated expression, and no node twice. *)
+Lemma eval_is_ref D m e ctx : in_subset D m e ctx = true ->
+  exists re l, deviate m e = Some re /\ eval D m e ctx = Ok l /\ ref_eval D m re ctx = Some l /\ NoDup (map fst l).
+Proof.
+  unfold in_subset. intro H. apply andb_prop in H as [Hp Hr].
+  destruct (paths_agree D m e ctx Hp) as (re & out & Hx & Hd & Hrp).
+  unfold deviate in *. rewrite Hx in Hr. unfold ref_eval in Hr. rewrite Hrp in Hr. cbn in Hr.
+  exists re, (dedup out). split; [exact Hx|]. unfold eval, ref_eval. rewrite Hd, Hrp.
+  rewrite is_doc_dedup in Hr. apply negb_true_iff in Hr. rewrite Hr. cbn.
+  repeat split. apply dedup_NoDup_fst.
+Qed.
